@@ -71,6 +71,8 @@ class Flow:
         self.n_div = 0
         self.n_set = 0
         self.reported = set()
+        self.lambdas = {}
+        self.val = {}
 
     # ---- provenance of an expression -------------------------------------------------------------------------------
     def labels(self, e, prov):
@@ -182,6 +184,22 @@ class Flow:
             labs = self.labels(den, prov)
             self.n_div += 1
             state["divs"].append((e0, den, labs, self.guarded(den, guards)))
+        if k == "Call":
+            lam = None
+            for key_ in ("obj", "callee"):
+                o_ = C.strip_casts(e0.get(key_)) if e0.get(key_) is not None else None
+                if o_ is not None and o_.get("k") == "Ref" and o_.get("id") in self.lambdas:
+                    lam = self.lambdas[o_["id"]]
+            if lam is not None and len(lam.get("params", [])) == len(e0.get("a", [])) and state.get("depth", 0) < 4:
+                for a_ in e0["a"]:
+                    self.visit_expr(a_, prov, guards, state)
+                for p_, a_ in zip(lam["params"], e0["a"]):
+                    if "id" in p_:
+                        prov[("l", p_["id"], p_.get("n"))] = self.labels(a_, prov)
+                state["depth"] = state.get("depth", 0) + 1
+                self.walk(lam["body"], prov, guards, self.val, state)
+                state["depth"] -= 1
+                return
         if k == "Call" and e0.get("n") in SETTERS and e0.get("a") and \
                 C.strip_casts(e0["a"][-1]).get("k") not in ("Float", "Int") and \
                 not (C.strip_casts(e0["a"][-1]).get("k") == "Un" and C.strip_casts(C.strip_casts(e0["a"][-1])["x"]).get("k") in ("Float", "Int")):
@@ -228,6 +246,12 @@ class Flow:
         elif k == "Decl":
             for d in s["d"]:
                 if d.get("init") is not None:
+                    i0 = C.strip_casts(d["init"])
+                    while i0 is not None and i0.get("k") == "Ctor" and len(i0.get("a", [])) == 1:
+                        i0 = C.strip_casts(i0["a"][0])
+                    if i0 is not None and i0.get("k") == "Lambda":
+                        self.lambdas[d["id"]] = i0       # its body is read at every call, with the arguments bound
+                        continue
                     self.visit_expr(d["init"], prov, guards, state)
                     prov[("l", d["id"], d.get("n"))] = self.labels(d["init"], prov)
         elif k == "If":
@@ -249,7 +273,7 @@ class Flow:
                     self.walk(s[key], prov, guards, val, state)
             for _ in range(4):
                 before = {kk: set(v) for kk, v in prov.items()}
-                sub = {"divs": [], "sets": [], "reads": state["reads"]}
+                sub = {"divs": [], "sets": [], "reads": state["reads"], "depth": state.get("depth", 0)}
                 if s.get("c") is not None:
                     self.visit_expr(s["c"], prov, guards, sub)
                 self.walk(s.get("body"), prov, guards, val, sub)
@@ -296,6 +320,8 @@ class Flow:
             if not (set(ROUND_TRIP) <= state["reads"]) or (state["reads"] & {"Density", "Pressure"}):
                 continue
             n_paths += 1
+            self.val = val
+            self.lambdas = {}
             self.walk(fn["body"], prov, [], val, state)
             case = ", ".join("%s%s" % ("" if v else "!", a.split(":", 1)[1]) for a, v in val.items() if a.startswith("flag:"))
             for e, den, labs, guarded in state["divs"]:
